@@ -51,7 +51,8 @@ DoSaveU     == DoSave /\ UNCHANGED last
 DoRestore   == (\E s \in 1..Len(slots) : Restore(s)) /\ UNCHANGED last
 \* pop, assignment outside any model, rebuild (poison-free values only: a build whose node function raises fails)
 DoRebuild   == (\E n \in Node, x \in Atoms \ {"!"} : Rebuild(n, x, ord)) /\ UNCHANGED last
-Next == DoAssign \/ DoSetAuto \/ DoUpdateAll \/ DoTargets \/ DoSaveU \/ DoRestore \/ DoRebuild
+DoReload    == Reload /\ UNCHANGED last
+Next == DoAssign \/ DoSetAuto \/ DoUpdateAll \/ DoTargets \/ DoSaveU \/ DoRestore \/ DoRebuild \/ DoReload
 \* same next-state relation with the arguments visible in TLC's simulation traces
 \* `last` names the action and its arguments (history variable, constant in the exhaustive spec)
 NextArgs ==
@@ -62,6 +63,7 @@ NextArgs ==
         \/ DoSave /\ last' = <<"save">>
         \/ \E s \in 1..Len(slots) : Restore(s) /\ last' = <<"restore", s>>
         \/ \E n \in Node, x \in Atoms \ {"!"} : Rebuild(n, x, ord) /\ last' = <<"rebuild", n, x>>
+        \/ Reload /\ last' = <<"reload">>
 
 \* post-conditions of the update actions as action properties
 FullUpdateCleanA == [][UpdateAll => FullUpdateClean']_<<gvars, svars, last>>
